@@ -204,3 +204,415 @@ def replay(path):
         return 0
     print(json.dumps(rp, indent=1, ensure_ascii=False)[:4000])
     return 0
+
+
+# ====================================================================== helpers for oracles
+SIX = {"CAP", "AUTHENTICATE", "PASS", "NICK", "USER", "QUIT"}
+
+
+def first_verb(line):
+    if isinstance(line, bytes):
+        try:
+            line = line.decode("utf-8")
+        except Exception:
+            return None
+    ws = line.split()
+    if ws and ws[0].startswith(":"):
+        ws = ws[1:]
+    return ws[0].upper() if ws else None
+
+
+def numeric_of(line):
+    m = re.match(r"^:\S+ (\S+)", line)
+    return m.group(1) if m else None
+
+
+def strip_dump(d):
+    """dump without fields that legitimately move (none at present)"""
+    return d
+
+
+# ====================================================================== C03
+ALL_VERB_LINES = [
+    "JOIN #a", "PART #a", "TOPIC #a", "TOPIC #a :x", "NAMES", "NAMES #a", "LIST", "INVITE bob #a", "KICK #a bob",
+    "MOTD", "VERSION", "ADMIN", "CONNECT a.b", "LUSERS", "TIME", "STATS u", "LINKS", "HELP", "INFO", "MODE bob",
+    "MODE #a +i", "MODE bob +i", "PRIVMSG bob :hi", "PRIVMSG #a :hi", "NOTICE bob :hi", "WHO *", "WHO bob", "WHOIS bob",
+    "WHOWAS bob", "KILL bob :x", "REHASH", "RESTART", "SQUIT irc.irc :x", "AWAY :gone", "USERHOST bob", "WALLOPS :x",
+    "ISON bob", "DIE", "PING x", "PONG x", "OPER admin operpass", "FOO", "join #a", "JOIN", "PRIVMSG", "MODE", "",
+    "CAP LS 302", "CAP LIST", "CAP REQ :multi-prefix", "CAP END", "AUTHENTICATE", "PASS secret1", "NICK bob", "NICK zed",
+    "USER z 8 * :Z", "QUIT",
+]
+
+
+def c03_cases(res):
+    rng = random.Random(res.seed)
+    cfgs = []
+    cfgs.append(("nopw", Config(operators=[dict(name="admin", password="operpass")])))
+    cfgs.append(("srvpw", Config(password="secret1", operators=[dict(name="admin", password="operpass")])))
+    cfgs.append(("userpw", Config(users=[dict(name="zed", nick="zed", password="topsecret", mask=None)])))
+    cfgs.append(("usermask", Config(users=[dict(name="zed", nick="zed", password=None, mask="zed!*@10.*")])))
+    cfgs.append(("usermaskok", Config(password="secret1",
+                                      users=[dict(name="zed", nick="zed", password="topsecret", mask="z*!~zed@127.0.0.?")])))
+    prefixes = [[], ["PASS secret1"], ["PASS topsecret"], ["PASS wrongpw"], ["NICK zed"], ["USER zed 8 * :Z"],
+                ["CAP LS 302", "NICK zed", "USER zed 8 * :Z"], ["PASS secret1", "NICK zed"], ["PASS topsecret", "USER zed 8 * :Z"],
+                ["CAP LS 302"], ["NICK bob"], ["USER zed 8 * :Z", "NICK bob"]]
+    finishers = [["NICK zed", "USER zed 8 * :Z", "CAP END"], ["PASS secret1", "NICK zed", "USER zed 8 * :Z", "CAP END"],
+                 ["PASS topsecret", "USER zed 8 * :Z", "NICK zed", "CAP END"]]
+    traces = []
+    k = 0
+    for cname, cfg in cfgs:
+        for pi, pre in enumerate(prefixes):
+            probes = ALL_VERB_LINES if res.tier == "thorough" or True else ALL_VERB_LINES
+            for li, probe in enumerate(probes):
+                if res.tier == "quick" and (k * 7 + li) % 3 != 0 and probe not in ("JOIN #a", "PRIVMSG bob :hi", "WHO *"):
+                    k += 1
+                    continue
+                k += 1
+                t = Trace("c03-%s-%d-%d" % (cname, pi, li), cfg)
+                pw = cfg.password
+                t.open(0)
+                if pw:
+                    t.line(0, "PASS " + pw)
+                t.line(0, "NICK bob")
+                t.line(0, "USER bob 8 * :Bob")
+                t.line(0, "JOIN #a")
+                t.open(1)
+                for p in pre:
+                    t.line(1, p)
+                t.line(1, probe)
+                for f in finishers[(pi + li) % len(finishers)]:
+                    t.line(1, f)
+                t.line(1, "LUSERS")
+                t.meta = {"cfg": cname, "prefix": pre, "probe": probe}
+                traces.append(t)
+    return traces
+
+
+def c03_oracle(t, steps):
+    """the gate on the implementation's own observations"""
+    fails = []
+    registered = set()
+    closed = set()
+    prev_dump = None
+    srv = t.cfg.name
+    for s in sorted(steps, key=lambda s: s["k"]):
+        ev = t.events[s["k"]]
+        dump = s.get("dump")
+        cid = ev[1] if len(ev) > 1 else None
+        if ev[0] == "L" and cid not in registered and cid not in closed:
+            v = first_verb(ev[2])
+            outs = s.get("out") or {}
+            if v is not None and v not in SIX:
+                mine = outs.get(str(cid), [])
+                others = {c: l for c, l in outs.items() if c != str(cid) and l}
+                ok_reply = len(mine) == 1 and numeric_of(mine[0]) in ("451", "421", "461", "472", "501", "696", "ERROR")
+                if not ok_reply:
+                    fails.append(("unregistered connection %d sent %r and was answered %r (expected exactly ERR_NOTREGISTERED or a parse error)" % (cid, ev[2], mine), {"step": s["k"]}))
+                if prev_dump is not None and dump != prev_dump:
+                    fails.append(("unregistered connection %d sent %r and the server state changed: %s" % (
+                        cid, ev[2], irc.diff_dump(prev_dump, dump, "dump")), {"step": s["k"]}))
+                if others:
+                    fails.append(("unregistered connection %d sent %r and other connections received %r" % (cid, ev[2], others), {"step": s["k"]}))
+                if s.get("eof"):
+                    fails.append(("unregistered connection %d sent %r and connections %r were closed" % (cid, ev[2], s["eof"]), {"step": s["k"]}))
+        for c, ls in (s.get("out") or {}).items():
+            for l in ls:
+                if l.startswith(":" + srv + " 001 "):
+                    registered.add(int(c))
+        closed.update(s.get("eof") or [])
+        prev_dump = dump
+    # password / mask requirement: the probing connection (1) registers as zed only with the right credentials
+    cfg = t.cfg
+    uc = [u for u in cfg.users if u["name"] == "zed"]
+    need = (uc[0].get("password") if uc and uc[0].get("password") else None) or cfg.password
+    mask = uc[0].get("mask") if uc else None
+    passes = [e[2].split(" ", 1)[1] for e in t.events if e[0] == "L" and e[1] == 1 and isinstance(e[2], str) and e[2].upper().startswith("PASS ")]
+    got001 = 1 in registered
+    if got001 and need is not None:
+        # the password in force when registration completed is the last PASS before the 001 step
+        k001 = min(s["k"] for s in steps for c, ls in (s.get("out") or {}).items() if c == "1" for l in ls if " 001 " in l[:40])
+        last = None
+        for idx, e in enumerate(t.events[:k001 + 1]):
+            if e[0] == "L" and e[1] == 1 and isinstance(e[2], str) and e[2].upper().startswith("PASS "):
+                last = e[2].split(" ", 1)[1]
+        if last != need:
+            fails.append(("connection 1 completed registration with password %r while %r is required" % (last, need), {"step": k001}))
+    if got001 and mask == "zed!*@10.*":
+        nick_at_reg = [d for s in steps for d in [s.get("dump")] if d]
+        fails.append(("connection 1 registered although the configured user mask %r cannot match a loopback client" % mask, {}))
+    return fails
+
+
+def check_C03(res):
+    traces = c03_cases(res)
+    prof = {"weights": dict(REG=8, BAD=4, NICK=5, JOIN=4, PRIVMSG=4), "p_server_password": 0.5, "p_users": 0.7,
+            "initial_conns": 1, "max_conns": 5}
+    rng = random.Random(res.seed + 3)
+    extra = 40 if res.tier == "quick" else 600
+    r = l2_campaign(res, "C03", extra, 30, prof, traces=traces, oracle=c03_oracle)
+    distinct = len(set((t.meta.get("cfg"), tuple(t.meta.get("prefix", [])), t.meta.get("probe")) for t in traces))
+    res.coverage.update({
+        "evaluations": r["steps"], "distinct_nontrivial": distinct,
+        "rule": "finite sweep: 5 configurations (no password / server password / configured user with password / with non-matching mask / with "
+                "matching mask and both passwords) x 12 registration-progress prefixes x %d probe lines (every verb, malformed and unknown lines); "
+                "quick tier runs a fixed third of the cells plus the cells JOIN/PRIVMSG/WHO; each trace then finishes registration in one of 3 orders; "
+                "distinct = distinct (config, prefix, probe) cells; plus %d random registration-heavy traces" % (len(ALL_VERB_LINES), extra),
+        "exhaustive": res.tier == "thorough",
+        "traces_validated_against_impl": r["traces"],
+        "samples": [traces[i].describe() for i in (0, len(traces) // 2)],
+        "l2": r["summary"]})
+    res.assumptions = ["argon2 verification is a parameter (verify) of the model; the driver instantiates it with the table of hashes computed by the real argon2_hash_password"]
+
+
+# ====================================================================== python-side spec helpers
+def py_glob(p, t):
+    """textbook glob ('*' any run, '?' one character), iterative with backtracking"""
+    pi = ti = 0
+    star = -1
+    mark = 0
+    while ti < len(t):
+        if pi < len(p) and p[pi] == "*":
+            star, mark = pi, ti
+            pi += 1
+        elif pi < len(p) and (p[pi] == "?" or p[pi] == t[ti]):
+            pi += 1
+            ti += 1
+        elif star >= 0:
+            pi = star + 1
+            mark += 1
+            ti = mark
+        else:
+            return False
+    while pi < len(p) and p[pi] == "*":
+        pi += 1
+    return pi == len(p)
+
+
+def py_banned(ch, source):
+    return any(py_glob(b, source) for b in ch["ban"]) and not any(py_glob(e, source) for e in ch["exception"])
+
+
+def py_target_type(target):
+    """get_privmsg_target_type as specified: leading status prefixes, then the channel name"""
+    flags = set()
+    i = 0
+    n = len(target)
+    amp = 0
+    last_amp = False
+    while i < n:
+        c = target[i]
+        if c in "~@%+":
+            flags.add(c)
+        elif c == "&":
+            flags.add("&")
+        elif c == "#":
+            return (flags, target[i:]) if i + 1 < n else (None, "")
+        else:
+            if last_amp:
+                if amp < 2:
+                    flags.discard("&")
+                return (flags, target[i - 1:])
+            return (None, "")
+        if c == "&":
+            if i + 1 < n:
+                last_amp = True
+                amp += 1
+            else:
+                return (None, "")
+        else:
+            last_amp = False
+        i += 1
+    return (flags, "")
+
+
+class ConnMap:
+    """which nickname each connection is registered under, read off the wire"""
+
+    def __init__(self, srv):
+        self.srv = srv
+        self.nick = {}
+
+    def update(self, step):
+        for c, ls in (step.get("out") or {}).items():
+            c = int(c)
+            for l in ls:
+                if l.startswith(":" + self.srv + " 001 "):
+                    self.nick[c] = l.split(" ")[2]
+                else:
+                    m = re.match(r"^:([^ !]+)!\S* (?i:NICK) :?(\S+)", l)
+                    if m and self.nick.get(c) == m.group(1):
+                        self.nick[c] = m.group(2)
+        for c in step.get("eof") or []:
+            self.nick.pop(c, None)
+
+    def conn_of(self, nick):
+        for c, n in self.nick.items():
+            if n == nick:
+                return c
+        return None
+
+
+RANKSET = {"~": "founders", "&": "protecteds", "@": "operators", "%": "half_operators", "+": "voices"}
+
+
+def msg_expected(dump, actor, verb, targets, text):
+    """deliveries and replies the property prescribes, computed from the implementation's own pre-state"""
+    users, chans = dump["users"], dump["channels"]
+    src = users[actor]["source"]
+    deliveries = collections.Counter()   # (nick, line)
+    replies = []                          # numerics for the sender
+    seen = set()
+    for tg in targets:
+        if tg in seen:
+            continue
+        seen.add(tg)
+        line = ":%s %s %s :%s" % (src, verb, tg, text)
+        flags, chname = py_target_type(tg)
+        if flags is not None:
+            ch = chans.get(chname)
+            if ch is None:
+                replies.append("403")
+                continue
+            member = actor in ch["users"]
+            ok = (member or ("n" not in ch["flags"] and "s" not in ch["flags"])) and not py_banned(ch, src) and \
+                 ("m" not in ch["flags"] or (member and ch["users"][actor] != ""))
+            if not ok:
+                replies.append("404")
+                continue
+            if flags:
+                aud = set()
+                for f in flags:
+                    aud |= set(ch[RANKSET[f]])
+            else:
+                aud = set(ch["users"])
+            for n in aud:
+                if n != actor:
+                    deliveries[(n, line)] += 1
+        else:
+            if tg in users:
+                deliveries[(tg, line)] += 1
+                if users[tg]["away"] is not None:
+                    replies.append("301")
+            else:
+                replies.append("401")
+    return deliveries, replies
+
+
+def msg_oracle(t, steps):
+    """C01 / C10 on the implementation: deliveries and sender replies of every PRIVMSG/NOTICE step"""
+    fails = []
+    cm = ConnMap(t.cfg.name)
+    prev = None
+    for s in sorted(steps, key=lambda s: s["k"]):
+        ev = t.events[s["k"]]
+        if ev[0] == "L" and isinstance(ev[2], str) and prev is not None and not s.get("panics"):
+            m = re.match(r"^(PRIVMSG|NOTICE) (\S+) :(.*)$", ev[2])
+            actor = cm.nick.get(ev[1])
+            if m and actor in prev["users"] and "\t" not in ev[2] and "\r" not in ev[2]:
+                verb, tl, text = m.group(1), m.group(2).split(","), m.group(3)
+                valid = all(x != "" and ":" not in x for x in tl)
+                if valid:
+                    exp, replies = msg_expected(prev, actor, verb, tl, text)
+                    got = collections.Counter()
+                    for c, ls in (s.get("out") or {}).items():
+                        for l in ls:
+                            if re.match(r"^:\S+ (PRIVMSG|NOTICE) ", l):
+                                got[(cm.nick.get(int(c)), l)] += 1
+                    mine = [numeric_of(l) for l in (s.get("out") or {}).get(str(ev[1]), []) if l.startswith(":" + t.cfg.name + " ")]
+                    # a syntactically refused command (bad target) answers ERROR and delivers nothing
+                    if mine and mine[0] == "ERROR":
+                        if got:
+                            fails.append(("refused %s still delivered %r" % (verb, dict(got)), {"step": s["k"]}))
+                    else:
+                        if got != exp:
+                            fails.append(("%s by %s: delivered %r, the audience rule gives %r" % (
+                                ev[2], actor, sorted((k, v) for k, v in got.items()), sorted((k, v) for k, v in exp.items())), {"step": s["k"]}))
+                        if verb == "NOTICE" and mine:
+                            fails.append(("NOTICE was answered with %r" % mine, {"step": s["k"]}))
+                        if verb == "PRIVMSG" and sorted(mine) != sorted(replies):
+                            fails.append(("%s by %s: sender got %r, expected %r" % (ev[2], actor, sorted(mine), sorted(replies)), {"step": s["k"]}))
+        cm.update(s)
+        prev = s.get("dump")
+    return fails
+
+
+def msg_profile():
+    return {"weights": dict(PRIVMSG=22, NOTICE=10, JOIN=12, PART=4, KICK=4, NICK=5, MODE=10, AWAY=3, QUIT=1.2, MISC=0.2,
+                            WHO=0.3, WHOIS=0.3, LIST=0.2, WHOWAS=0.2, LUSERS=0.2, BAD=1),
+            "p_close": 0.04, "max_conns": 6, "initial_conns": 3}
+
+
+def msg_sweep(res):
+    """every subset of status prefixes against members holding every combination of ranks, on n/s/m/ban settings"""
+    traces = []
+    rng = random.Random(res.seed + 11)
+    prefixes = ["".join(p) for k in range(0, 6) for p in itertools.combinations("~&@%+", k)]
+    k = 0
+    for fl in ["", "n", "s", "m", "nm", "ns"]:
+        for banned in (False, True):
+            if res.tier == "quick" and (k % 2 == 1):
+                k += 1
+                continue
+            k += 1
+            cfg = Config(channels=[dict(name="#r", flags=fl, founders=["alice"], protecteds=["alice", "bob"], operators=["bob", "carol"],
+                                        half_operators=["carol", "dave"], voices=["dave", "alice"],
+                                        ban=(["éva!*@*", "x!*@*"] if banned else None), exception=(["x!*@127.*"] if banned else None))])
+            t = Trace("msg-%s-%d" % (fl or "none", banned), cfg)
+            for c, n in enumerate(["alice", "bob", "carol", "dave", "éva", "x"]):
+                t.register(c, n)
+                if n not in ("x",):
+                    t.line(c, "JOIN #r")
+            for sender in (0, 3, 4, 5):
+                for pf in prefixes:
+                    t.line(sender, "PRIVMSG %s#r :to %s" % (pf, pf or "all"))
+                t.line(sender, "NOTICE @%#r,#r,alice,@%#r :dup")
+            t.meta = {"flags": fl, "banned": banned}
+            traces.append(t)
+    return traces
+
+
+def check_C01(res):
+    sweep = msg_sweep(res)
+    n = 150 if res.tier == "quick" else 2500
+    r = l2_campaign(res, "C01", n, 45, msg_profile(), traces=sweep, oracle=msg_oracle)
+    res.coverage.update({
+        "evaluations": r["steps"], "distinct_nontrivial": msg_distinct(r),
+        "rule": "sweep: all 32 status-prefix subsets x 4 senders (founder+voice, half-op+voice, plain member, outsider with ban exception) on a preconfigured channel whose "
+                "five rank lists overlap, x channel flags {none,n,s,m,nm,ns} x banned/not; plus %d seeded random histories (membership churn, nick changes, kicks, modes, disconnects) "
+                "with PRIVMSG/NOTICE to mixed target lists; distinct = distinct (verb, target shape, outcome) of message steps; every message step is checked impl vs model AND against the "
+                "audience rule evaluated on the implementation's own pre-state dump" % n,
+        "traces_validated_against_impl": r["traces"],
+        "samples": [sweep[0].describe()["events"][20:26], r["trace_objs"][-1].describe()["events"][:12]],
+        "l2": r["summary"]})
+    res.assumptions = ["per-step drain of every queue (FIFO marker) makes deliveries of one command observable as one multiset per connection; drain order is C18's subject"]
+
+
+def msg_distinct(r):
+    shapes = set()
+    for t in r["trace_objs"]:
+        si = r["impl"].get(t.id) or []
+        byk = {s["k"]: s for s in si}
+        for k, e in enumerate(t.events):
+            if e[0] == "L" and isinstance(e[2], str):
+                m = re.match(r"^(PRIVMSG|NOTICE) (\S+) ", e[2])
+                if m and k in byk:
+                    shape = tuple(sorted(re.sub(r"[a-zA-Zé]+", "w", x) for x in m.group(2).split(",")))
+                    outc = tuple(sorted(set(numeric_of(l) or "" for ls in (byk[k].get("out") or {}).values() for l in ls)))
+                    shapes.add((m.group(1), shape, outc))
+    return len(shapes)
+
+
+def check_C10(res):
+    sweep = msg_sweep(res)
+    n = 120 if res.tier == "quick" else 2000
+    prof = msg_profile()
+    prof["weights"].update(MODE=16, AWAY=6)
+    r = l2_campaign(res, "C10", n, 45, prof, traces=sweep, oracle=msg_oracle)
+    res.coverage.update({
+        "evaluations": r["steps"], "distinct_nontrivial": msg_distinct(r),
+        "rule": "same sweep as C01 (flags {none,n,s,m,nm,ns} x banned/excepted x every rank combination x PRIVMSG and NOTICE) plus %d seeded random histories weighted to MODE "
+                "(+n/+s/+m/+b/+e/rank changes) and AWAY; distinct = distinct (verb, target shape, outcome); each message step is compared impl vs model and against the speaking rule "
+                "(member or open channel, not banned unless excepted, voice on +m) evaluated on the implementation's own pre-state, incl. NOTICE silence and 301" % n,
+        "traces_validated_against_impl": r["traces"],
+        "samples": [sweep[-1].describe()["events"][20:26]],
+        "l2": r["summary"]})
